@@ -699,6 +699,49 @@ func TestC20(t *testing.T) {
 		h.report("devino-conc", cf, pairs)
 	}
 
+	// concurrent FIRST lookups of pairs outside the compact encoding: all
+	// goroutines look a fresh pair up at the same moment (spin barrier per
+	// pair), so the window between "not found" and "stored" is hit many times
+	{
+		G, N := 8, env.Pick(3000, 40000)/env.NShards+1
+		base := uint64(1)<<41 + uint64(env.Shard)<<32 + (env.Seed%1000)<<20
+		results := make([][]uint64, G)
+		var arrived int64
+		var wg sync.WaitGroup
+		for gi := 0; gi < G; gi++ {
+			results[gi] = make([]uint64, N)
+			wg.Add(1)
+			go func(gi int) {
+				defer wg.Done()
+				for p := 0; p < N; p++ {
+					atomic.AddInt64(&arrived, 1)
+					for spins := 0; atomic.LoadInt64(&arrived) < int64((p+1)*G); spins++ {
+						if spins > 100 {
+							runtime.Gosched()
+						}
+					}
+					results[gi][p] = localfs.VerifQIDPath(3, base+uint64(p))
+				}
+			}(gi)
+		}
+		wg.Wait()
+		var cf *fail
+		var bad [][2]uint64
+		for p := 0; p < N && cf == nil; p++ {
+			final := localfs.VerifQIDPath(3, base+uint64(p))
+			for gi := 0; gi < G; gi++ {
+				if results[gi][p] != final {
+					cf = failf("localfs-qid-unstable:concurrent-first-lookups", "(dev=3, ino=%#x): a first lookup racing %d others was given path %#x, later lookups return %#x", base+uint64(p), G-1, results[gi][p], final)
+					bad = [][2]uint64{{3, base + uint64(p)}}
+					break
+				}
+			}
+		}
+		h.Case(evid.Hash64([]byte("devino-barrier"), u64b(env.Seed, uint64(env.Shard))), true, "devino:concurrent-first-lookups")
+		h.Count("devino:pairs-first-looked-up-by-8-goroutines-at-once", int64(N))
+		h.report("devino-conc", cf, bad)
+	}
+
 	// (3) mapper, sequential model
 	rapidCases(h, "mapper-seq", env.PerShard(env.Pick(2000, 100000)), func(rt *rapid.T) mapperCase {
 		n := rapid.IntRange(1, 30).Draw(rt, "n")
